@@ -328,6 +328,10 @@ def run(c):
     fine_pairs += [(a, b) for (p, a, b) in tasks if p == 'A' and (a, b) not in fine_pairs and
                    REQS[a][0] != REQS[b][0]][:60]
   jobs += [('sqlmem', 'A', a, b, limit, True) for a, b in fine_pairs]
+  # the SQL datastore keeps trials / operations in tables of their own: a study deleted between the steps of a call
+  # that creates such rows must not leave rows behind (the snapshot counts rows whose study row is gone)
+  if c.tier == 'quick':
+    jobs += [('sqlmem', 'A', a, 'deleteStudy', limit) for a in ('createTrial', 'suggestNew', 'suggestPool', 'earlyStop1', 'mdBoth')]
   # HOSTED: the real PythiaServicer and the real PartiallySerializableDesignerPolicy (config check, trial
   # loader, state dump through UpdateMetadata) between SuggestTrials and a scripted designer: the policy's
   # own datastore traffic (GetStudy, ListTrials, UpdateMetadata via the policy supporter) is interleaved too
